@@ -63,6 +63,11 @@ def gen_record(rng, r):
     nthreads = 1 if mode != "M3" else rng.choice([2, 3, 3, 4] if thorough else [2, 2, 3])
     cfg["p_mid"] = 0.0 if mode == "M1" else rng.choice([0.01, 0.05, 0.2])
     cfg["noise"] = mode == "M3" and rng.random() < 0.5
+    # granularity of mid-call events: backend calls only, or also every executed source line of library code
+    # (a perturbation / switch can then land between two lines that make no backend call)
+    cfg["gran"] = "line" if mode != "M1" and rng.random() < (0.2 if thorough else 0.08) else "event"
+    if cfg["gran"] == "line" and cfg["p_mid"]:
+        cfg["p_mid"] = cfg["p_mid"] / 5.0
     if mode == "M3":
         s = rng.random()
         cfg["strategy"] = ["random", rng.choice([0.05, 0.2, 0.5])] if s < 0.7 else ["pct", rng.choice([1, 2, 3])]
@@ -72,7 +77,10 @@ def gen_record(rng, r):
     threads = []
     for t in range(nthreads):
         ops = []
-        for _ in range(rng.randint(3, (14 if thorough else 8) if mode != "M3" else (8 if thorough else 5))):
+        nops = rng.randint(3, (14 if thorough else 8) if mode != "M3" else (8 if thorough else 5))
+        if cfg["gran"] == "line":
+            nops = min(nops, 4)  # line-level tracing is ~10x slower: shorter histories
+        for _ in range(nops):
             if rng.random() < p_perturb:
                 ops.append({"op": "perturb", "p": rngenv.gen_perturb(rng)})
             else:
@@ -127,11 +135,32 @@ class Run:
         self.calls = []  # observations
         self.cnt = Counter()
 
+    def gtrace(self, frame, event, arg):
+        if event == "call":
+            from .c15 import _traced_file
+
+            # never inside module bodies: a yield there would park a thread that holds an import lock
+            if frame.f_code.co_name != "<module>" and _traced_file(frame.f_code.co_filename):
+                return self.ltrace
+        return None
+
+    def ltrace(self, frame, event, arg):
+        if event == "line":
+            self.hook(0, "line")
+        return self.ltrace
+
     def hook(self, n, name):
         t = self.sched.cur
         st = t.local
-        if not st.get("in_call"):
+        if not st.get("in_call") or st.get("in_hook"):
             return None
+        st["in_hook"] = True
+        try:
+            return self._hook(t, st, name)
+        finally:
+            st["in_hook"] = False
+
+    def _hook(self, t, st, name):
         st["ev"] += 1
         key = (t.id, st["op"], st["ev"])
         p = None
@@ -151,6 +180,8 @@ class Run:
             self.cnt.inc("fault:midcall_perturb:" + p[0])
             if name == "callback":
                 self.cnt.inc("probe:perturb_at_callback")
+            if name == "line":
+                self.cnt.inc("probe:perturb_between_source_lines")
         if self.cfg["mode"] == "M3":
             self.sched.yield_point(("ev", name))
         return None
@@ -179,14 +210,14 @@ class Run:
         call = e["build"](g)
         tags = fp_tags(call["kwargs"], g.notes)
         st = t.local
+        import tensorly.tenalg as _ta
+
+        # thread-local selection through the real manager: other sim-threads are unaffected
+        _ta.set_backend(tm.get("tenalg", "core"), local_threadsafe=True)
         st.update(in_call=True, ev=0, op=i, foreign=False, switched=False)
         before = rngenv.state_digest()
         inv = self.sched.stamp()
-        import tensorly.tenalg as _ta
-
         try:
-            # thread-local selection through the real manager: other sim-threads are unaffected
-            _ta.set_backend(tm.get("tenalg", "core"), local_threadsafe=True)
             with np.errstate(all="ignore"):  # thread-local in NumPy
                 res = call["fn"](**call["kwargs"])
             out = snapshot.digest(res)
@@ -202,6 +233,16 @@ class Run:
 
     def thread_fn(self, spec):
         def fn(t):
+            import sys
+
+            if self.cfg.get("gran") == "line":
+                sys.settrace(self.gtrace)
+            try:
+                run_ops(t)
+            finally:
+                sys.settrace(None)
+
+        def run_ops(t):
             for i, op in enumerate(spec["ops"]):
                 if self.cfg["mode"] == "M3":
                     self.sched.yield_point(("op", i))
@@ -314,7 +355,7 @@ def log_digest(run):
 
 def probes(run, cnt):
     cnt.merge(run.cnt)
-    cnt.inc("mode:" + run.cfg["mode"])
+    cnt.inc("mode:" + run.cfg["mode"] + ("+line" if run.cfg.get("gran") == "line" else ""))
     cnt.inc("yield_points", run.sched.yields)
     cnt.inc("switches", run.sched.nswitch)
     keys = {}
